@@ -176,6 +176,13 @@ def offending(kind, exc_kind=0):
         return "caf\udce9.txt", False     # lone LOW surrogate: what surrogateescape gives for undecodable bytes (file names, argv)
     if kind == 38:
         return {"k\udc80": "v\udcff"}, False
+    if kind == 39:
+        return type("list", (), {})(), True           # a user class that is merely NAMED like a built-in container
+    if kind == 40:
+        BadLen2 = type("tuple", (), {"__len__": lambda self: (_ for _ in ()).throw(RuntimeError("no len"))})
+        return BadLen2(), True
+    if kind == 41:
+        return type("list_iterator", (), {"x": 1})(), False   # named like an iterator type
     raise ValueError(kind)
 
 
@@ -214,7 +221,7 @@ def _check_one(s, f_locals, hostile, watch_expr=None):
         # the hostile object itself has no fixed text; containers are rendered as 'Size: n' so they stay checkable
         for o in _iter_objs(f_locals):
             if type(o).__name__ in ("BadStr", "BadRepr", "BadLen", "BadAttr", "BadDictProp", "BadKeyStr", "Holder", "LazyBag") or \
-                    (type(o) is int and o > 10 ** 100):
+                    (type(o) is int and o > 10 ** 100) or (type(o).__name__ in ("list", "tuple") and type(o) not in (list, tuple)):
                 hid.add(id(o))
             if type(o) is dict and any(type(k).__name__ == "BadKeyStr" for k in o):
                 hid.add(id(o))
@@ -263,7 +270,7 @@ def total(kind: int, pos: int, ek: int, ntp: int, conv: int) -> str:
     SystemExit / GeneratorExit) at one of 5 positions, 1-3 snapshot tracepoints on the line (the last one with a watch):
     one snapshot per tracepoint is delivered and converts, every other variable is intact, the offending value has an
     entry with its real type name, each snapshot is complete and closed on its own.
-    PRE: 0 <= kind <= 38 and 0 <= pos <= 5 and 0 <= ek <= 5 and 1 <= ntp <= 3 and 0 <= conv <= 1
+    PRE: 0 <= kind <= 41 and 0 <= pos <= 5 and 0 <= ek <= 5 and 1 <= ntp <= 3 and 0 <= conv <= 1
     PRE: ek == 0 or kind in (16, 17, 18, 19, 20, 22)
     POST: _ == ""
     """
@@ -513,11 +520,11 @@ CONDITIONS = [
          twins=["reach", "mutant:no_action_guard@fk == 0 and ntp == 2"],
          bounds="2-3 tracepoints on one line, the one at any position failing for a reason of its own (7 kinds: number format applied to text, malformed message, "
                 "condition value without a text form, unusable MAX_VARIABLES / MAX_STRING_LENGTH, push failing for that snapshot, a failing metric expression)"),
-    dict(fn="total", cubes={"quick": ["kind == %d and ntp == %d and conv == 1" % (k, 1 + (k % 3)) for k in range(39)] +
+    dict(fn="total", cubes={"quick": ["kind == %d and ntp == %d and conv == 1" % (k, 1 + (k % 3)) for k in range(42)] +
                                      ["kind == %d and ntp == %d and conv == 1" % (k, n) for k in (0, 8, 16, 19) for n in (1, 2, 3)],
-                            "thorough": ["kind == %d and ntp == %d and conv == 1" % (k, n) for k in range(39) for n in (1, 2, 3)]},
+                            "thorough": ["kind == %d and ntp == %d and conv == 1" % (k, n) for k in range(42) for n in (1, 2, 3)]},
          twins=["reach", "mutant:dict_unguarded@kind == 0 and ntp == 1 and conv == 1", "mutant:str_unguarded@kind == 17 and ntp == 1 and conv == 1",
                 "mutant:key_names_raw@kind == 8 and ntp == 1 and conv == 1", "mutant:shared_table@kind == 0 and ntp == 2 and conv == 1"],
-         bounds="39 offending-value kinds x 6 positions (local, list element, dict value, object attribute, watch-only, the local named `self`) x 6 exception classes for the hostile kinds; "
+         bounds="42 offending-value kinds x 6 positions (local, list element, dict value, object attribute, watch-only, the local named `self`) x 6 exception classes for the hostile kinds; "
                 "1-3 tracepoints on the line, the last with a watch (quick: one tracepoint count per kind, all three for 4 kinds; thorough: all); real protobuf conversion + serialisation of every snapshot"),
 ]
